@@ -78,6 +78,11 @@ def reg_pass(seed, count, label, lines_fn=None):
                 for sp in specs: walk(sp)
                 seen_entry, done = False, set()
                 for n in order:
+                    # (sometimes the FIRST content a new file is registered with does not parse: the files that import it were
+                    # bound while it was missing, and must be bound again all the same; then the file is repaired)
+                    if n in has_broken and n != "entry.ts" and rnd.random() < 0.3:
+                        ops.append(["u", ("s", n), "2"])
+                        if seen_entry and reexp <= (done | {n}): ops.append(["r"])
                     ops.append(["u", ("s", n), "1"])
                     done.add(n)
                     seen_entry = seen_entry or n == "entry.ts"
